@@ -268,22 +268,22 @@ def decision_of(st, idx):
     return st.trace[idx].d.get("result")
 
 
-def c12_step(chk, ex):
+def c12_step(chk, ex, prefix="C12"):
     eng, rec0 = ex.eng, ex.inputs["rec0"]
     for path in ex.paths:
         k, v, st = path
         sc = strategy_calls(st, "retry_strategy")
         uc = user_calls(st)
-        P(chk, ex, path, "C12.step.strategy_once", None, len(sc) <= 1, "the retry strategy is consulted at most once per call")
+        P(chk, ex, path, f"{prefix}.step.strategy_once", None, len(sc) <= 1, "the retry strategy is consulted at most once per call")
         for i, e in sc:
             lr = last_read_before(st, i)
-            P(chk, ex, path, "C12.step.attempt_arg", None, zint(e.args[1]) == attempt_of(st, lr) + 1, "strategy receives attempts made so far = recorded attempt + 1 (1 on the first failure)")
+            P(chk, ex, path, f"{prefix}.step.attempt_arg", None, zint(e.args[1]) == attempt_of(st, lr) + 1, "strategy receives attempts made so far = recorded attempt + 1 (1 on the first failure)")
             raised = i + 1 < len(st.trace) and st.trace[i + 1].kind == "raised"
             if raised:
                 continue
             after = [(j, c) for j, c in cps(st) if j > i]
             dec = st.ghost.get(("decision", i))
-            P(chk, ex, path, "C12.step.decision_recorded", None, len(after) == 1 and not [1 for j, _ in uc if j > i], "after the strategy decided, exactly one update is attempted and the function is not entered again")
+            P(chk, ex, path, f"{prefix}.step.decision_recorded", None, len(after) == 1 and not [1 for j, _ in uc if j > i], "after the strategy decided, exactly one update is attempted and the function is not entered again")
             if len(after) != 1:
                 continue
             j, c = after[0]
@@ -295,18 +295,36 @@ def c12_step(chk, ex):
             sr = st.trace[i].d.get("should")
             d = st.trace[i].d.get("delay")
             if sr is None:
-                P(chk, ex, path, "C12.step.retry_record", None, F, "internal: decision not recorded by the hook")
+                P(chk, ex, path, f"{prefix}.step.retry_record", None, F, "internal: decision not recorded by the hook")
                 continue
             delay_ok = zint(st.get(so)["next_attempt_delay_seconds"]) == z3.If(d < 1, 1, d) if isinstance(so, Ref) else F
             outcome_retry = z3.BoolVal(c.outcome != "ok" or (k == "raise" and exc_class(v) == "TimedSuspendExecution"))
-            P(chk, ex, path, "C12.step.retry_record", sr, z3.And(is_retry, common, delay_ok, outcome_retry),
+            P(chk, ex, path, f"{prefix}.step.retry_record", sr, z3.And(is_retry, common, delay_ok, outcome_retry),
               "should_retry => synchronous RETRY with delay max(1, d) and the error, then a timed suspension")
             if c.outcome == "ok":
                 raised_ok = k == "raise" and (exc_class(v) == "CallableRuntimeError" or (isinstance(err_exc, Ref) and v == err_exc))
             else:
                 raised_ok = True
-            P(chk, ex, path, "C12.step.decline_records_fail", z3.Not(sr), z3.And(is_fail, common, z3.BoolVal(raised_ok)),
+            P(chk, ex, path, f"{prefix}.step.decline_records_fail", z3.Not(sr), z3.And(is_fail, common, z3.BoolVal(raised_ok)),
               "strategy declines => synchronous FAIL with the error is sent, then the failure is raised")
+        ready = status_in(eng, st, rec0, ["READY"])
+        if ex.kind == "step" and feasible_pre(ex, st, ready):
+            all_c = cps(st)
+            before = [(j, c) for j, c in all_c if not uc or j < uc[0][0]]
+            start_failed = bool(before) and before[0][1].outcome != "ok"
+            if start_failed:
+                goal = z3.BoolVal(not uc)
+            else:
+                goal = z3.BoolVal(len(uc) == 1 and len(before) <= 1)
+                if len(uc) == 1 and len(before) == 1:
+                    goal = z3.And(goal, action_is(eng, st, before[0][1], "START"), own_cp(ex, st, before[0][1]))
+            # B1: a read that follows an accepted START of this operation returns the record STARTED
+            b1 = [status_in(eng, st, e2.rec, ["STARTED"]) for j, c in before if c.outcome == "ok" for i2, e2 in reads(st) if i2 > j]
+            ready = z3.And(ready, *b1) if b1 else ready
+            if not feasible_pre(ex, st, ready):
+                continue
+            P(chk, ex, path, f"{prefix}.step.ready_reattempts", ready, goal,
+              "record READY (the retry delay has elapsed) => the next attempt is made: the function is entered exactly once, preceded by nothing but (possibly) a START of this operation, whatever the step semantics - a READY attempt is not an interrupted one")
         pend = status_in(eng, st, rec0, ["PENDING"])
         if feasible_pre(ex, st, pend):
             tn, ts = details_field(st, rec0, "step_details", "next_attempt_timestamp")
@@ -389,6 +407,16 @@ def c03_sync_before_outcome(chk, ex, prefix="C03"):
     for path in ex.paths:
         k, v, st = path
         uc = user_calls(st)
+        if kind == "step" and k == "raise" and raised_by_handler(v, ("StepInterruptedError",)):
+            # the final error of an interrupted at-most-once attempt (the strategy declined: otherwise the path ends in a suspension)
+            okc = cps(st, "ok")
+            goal = F
+            if okc:
+                j, c = okc[-1]
+                goal = z3.And(action_is(eng, st, c, "FAIL"), sync_term(c), own_cp(ex, st, c), z3.BoolVal(j == max(x for x, _ in cps(st))))
+            P(chk, ex, path, f"{prefix}.{kind}.sync_before_outcome.interrupted", None, goal,
+              "StepInterruptedError (the final error of an interrupted at-most-once step whose strategy declines) is raised only after a synchronous FAIL of this operation was accepted; it is the last update")
+            continue
         if not uc:
             continue
         last_uc = uc[-1][0]
@@ -504,6 +532,22 @@ def c10_orphan_before_user(chk, ex):
 
 
 # ------------------------------------------------------------------------------------------------ C11
+def ids_passthrough_path(chk, ex, path, prefix):
+    eng, kind, ident = ex.eng, ex.kind, ex.inputs["ident"]
+    k, v, st = path
+    ids = st.get(ident)
+    for j, c in cps(st):
+        P(chk, ex, path, f"{prefix}.{kind}.ids_passthrough", None,
+          z3.And(own_cp(ex, st, c), ops.values_equal(st, upd(st, c, "parent_id"), ids["parent_id"]), ops.values_equal(st, upd(st, c, "name"), ids["name"]),
+                 type_is(eng, st, c, {"step": "STEP", "wfc": "STEP", "child": "CONTEXT", "wait": "WAIT", "invoke": "CHAINED_INVOKE", "callback": "CALLBACK"}[kind])),
+          "every update carries this operation's id, its parent's id, its name and the operation type of its kind")
+
+
+def ids_passthrough(chk, ex, prefix):
+    for path in ex.paths:
+        ids_passthrough_path(chk, ex, path, prefix)
+
+
 def c11_lifecycle(chk, ex, status_domain):
     eng, kind, rec0 = ex.eng, ex.kind, ex.inputs["rec0"]
     ident = ex.inputs["ident"]
@@ -515,12 +559,7 @@ def c11_lifecycle(chk, ex, status_domain):
             rn, rc = details_field(st, rec0, "context_details", "replay_children")
             if rc is not None:  # U: a deterministic body does not fail when re-traversed over a SUCCEEDED summary record
                 dom = z3.And(dom, z3.Not(z3.And(status_in(eng, st, rec0, ["SUCCEEDED"]), z3.Not(rn), zbool(rc))))
-        ids = st.get(ident)
-        for j, c in all_cps:
-            P(chk, ex, path, f"C11.{kind}.ids_passthrough", None,
-              z3.And(own_cp(ex, st, c), ops.values_equal(st, upd(st, c, "parent_id"), ids["parent_id"]), ops.values_equal(st, upd(st, c, "name"), ids["name"]),
-                     type_is(eng, st, c, {"step": "STEP", "wfc": "STEP", "child": "CONTEXT", "wait": "WAIT", "invoke": "CHAINED_INVOKE", "callback": "CALLBACK"}[kind])),
-              "every update carries this operation's id, its parent's id, its name and the operation type of its kind")
+        ids_passthrough_path(chk, ex, path, "C11")
         term0 = status_in(eng, st, rec0, TERMINAL)
         if kind == "child":
             pass
